@@ -24,4 +24,22 @@ theorem flags_shift_invariant (pick : List Nat → Nat) (s j : α) (db : Loaded 
   rw [List.map_map]
   rfl
 
+/-! ### Non-vacuity (dataset `Example.db`, kernel evaluation at `Rat`): a shift by 17 s, which is
+    not a multiple of the step -/
+namespace Example
+
+example : (classifyAll pickFirst s j db).toOption.map (·.pairs) =
+    some [((3600, 10800), (3600, 7200)), ((25200, 32400), (28800, 32400))] := by decide +kernel
+example : (classifyAll pickFirst s j (db.shift 17)).toOption.map (·.pairs) =
+    some [((3617, 10817), (3617, 7217)), ((25217, 32417), (28817, 32417))] := by decide +kernel
+example : (classifyAll pickFirst s j (db.shift 17)).toOption.map (·.interstorms) =
+    some [(10817, 18017)] := by decide +kernel
+example : (classifyAll pickFirst s j (db.shift 17)).toOption.map (fun c => c.flags.map (·.2)) =
+    (classifyAll pickFirst s j db).toOption.map (fun c => c.flags.map (·.2)) := by decide +kernel
+/-- a refusal is carried over unchanged -/
+example : (classifyAll pickFirst s j (dbNoLabels.shift 17)).toOption.map (·.pairs) = none := by
+  decide +kernel
+
+end Example
+
 end Spowtd
